@@ -7,4 +7,6 @@ mkdir -p /tmp/seedwt
 git -C /repo worktree add -q --detach "$wt" HEAD || exit 2
 trap 'git -C /repo worktree remove --force "$wt" >/dev/null 2>&1' EXIT
 git -C "$wt" apply "$d/patch.diff" || { echo "$name: APPLY-FAILED"; exit 3; }
-VERIF_REPO="$wt" /verif/check $prop --tier quick "$@" 2>&1 | grep -E "^VIOLATION|HOLDS|VIOLAT|error|Error" | cut -c1-260 | head -${QS_LINES:-6}
+out=$(VERIF_REPO="$wt" /verif/check $prop --tier quick "$@" 2>&1); rc=$?
+echo "$out" | grep -E "^VIOLATION|^  signature|^  observed|HARNESS-ERROR" | cut -c1-260 | head -${QS_LINES:-6}
+echo "$name vs $prop: exit=$rc $(echo "$out" | tail -1 | grep -oE 'HOLDS on everything explored|VIOLATED|HARNESS ERROR')"
